@@ -251,9 +251,41 @@ def many_records(verdict):
         shutil.rmtree(d, ignore_errors=True)
 
 
+def sigchld_ignored(verdict):
+    """redo started by a parent that ignores SIGCHLD (some service managers and wrappers do; the disposition is inherited
+    across exec): the kernel then reaps children by itself and wait() answers ECHILD.  A build whose scripts all succeed exits 0."""
+    import shutil
+    import signal
+    import subprocess
+    bindir = common.build_subject()
+    d = common.scratch_root() / "c09chld"
+    (d / "p" / ".redo").mkdir(parents=True)
+    (d / "home").mkdir()
+    out = {}
+    try:
+        P = d / "p"
+        (P / "x.do").write_text('redo-ifchange y\necho x\n')
+        (P / "y.do").write_text('echo y\n')
+        env = common.base_env(bindir, d / "home")
+        for name, cmd in (("redo-no-log", ["redo", "--no-log", "x"]), ("redo-log-j2", ["redo", "-j2", "x"]), ("ifchange", ["redo-ifchange", "x"])):
+            for f in ("x", "y"):
+                if (P / f).exists():
+                    (P / f).unlink()
+            p = subprocess.run([str(bindir / cmd[0])] + cmd[1:], cwd=str(P), env=env, stdin=subprocess.DEVNULL, stdout=subprocess.PIPE,
+                               stderr=subprocess.PIPE, timeout=120, preexec_fn=lambda: signal.signal(signal.SIGCHLD, signal.SIG_IGN))
+            out[name] = p.returncode
+            if p.returncode != 0 or not (P / "x").exists():
+                verdict.report({"kind": "all-scripts-succeed-but-exit-nonzero", "case": "SIGCHLD-ignored-by-the-parent:" + name, "rc": p.returncode},
+                               {"engine": "E1-sigchld", "command": cmd, "stderr": p.stderr.decode("utf-8", "replace")[-400:]})
+        return out
+    finally:
+        shutil.rmtree(d, ignore_errors=True)
+
+
 def main(tier):
     v = common.Verdict(PID)
     cov_pipe = closed_outputs(v)
+    cov_pipe["sigchld_ignored_by_the_parent"] = sigchld_ignored(v)
     cov_pipe["many_records"] = many_records(v)
     rc_pipe = v.finish()
     rc = main_e2(tier, cov_pipe, v.count)
